@@ -9,6 +9,6 @@ VARIABLES out, pick
 (* vectors: the initial states, one per scenario (`pick`: see Resilience_MC) *)
 VInit(In(_)) == In(pick) /\ IInitAs(pick) /\ out = ToJson([a |-> "init", sc |-> pick])
 VNext == UNCHANGED <<allvars, out, pick>>
-VAllSpec   == VInit(InAll) /\ [][VNext]_<<allvars, out, pick>>
-VQuickSpec == VInit(InQuick) /\ [][VNext]_<<allvars, out, pick>>
+VAllSpec   == VInit(InAllV) /\ [][VNext]_<<allvars, out, pick>>
+VQuickSpec == VInit(InQuickV) /\ [][VNext]_<<allvars, out, pick>>
 =============================================================================
